@@ -88,9 +88,11 @@ def instance(cfg, need_p=False, with_k=None):
 def build(rec, cls):
     try:
         build_symbolic(rec, cls)
-    except (sym.Unsupported, sym.TooManyPaths) as ex:
+    except CheckerFault:
+        raise
+    except Exception as ex:          # Unsupported / TooManyPaths, or a changed tree that leaves the symbolic model in another way (e.g. np.dot on tensors)
         rec.record('%s/symbolic-trace' % cls, ['chi._error_models.%s' % cls], 'P∞', 'undecided', 'engine', 0.0,
-                   'construct outside the symbolic model, obligations of this class fall back to the bounded run-time contract: %s' % ex)
+                   'construct outside the symbolic model, obligations of this class fall back to the bounded run-time contract: %r' % (ex,))
     runtime_contract(rec, cls)
 
 
@@ -277,6 +279,18 @@ def runtime_contract(rec, cls):
             env['Sens'] = rng.normal(size=(nn, int(env[p])))
             env[TH[0]] = 0.15 if cls != 'GaussianErrorModel' else 0.15 * scale
             env[TH[1]] = 0.2
+            yield ('long', jsonable(env))
+        # outputs much larger than the residuals and the noise scale: the squared residuals must be formed from the differences
+        # (an expanded square  m.m - 2 m.o + o.o  cancels catastrophically in floating point)
+        for scale, noise in ((1.0e4, 1.0e-2), (1.0e6, 1.0e-3)):
+            nn = 50
+            env = Env(instance(cfg, need_p=True)(rng))
+            env[n] = nn
+            env['M'] = scale * rng.uniform(0.5, 2.0, nn)
+            env['O'] = env['M'] + noise * rng.normal(size=nn) if not cfg['log'] else env['M'] * np.exp(noise * rng.normal(size=nn))
+            env['Sens'] = rng.normal(size=(nn, int(env[p])))
+            env[TH[0]] = noise if cls in ('GaussianErrorModel', 'LogNormalErrorModel') else noise / scale
+            env[TH[1]] = noise / scale
             yield ('long', jsonable(env))
 
     def support_cases():
